@@ -675,6 +675,9 @@ pub enum Profile {
     Cyc,
     /// Cyc with a bias towards auto traits over (mutually) recursive structs with negative impls
     CycAuto,
+    /// Cyc where coinductive impls may depend on inductive goals: mixed inductive/coinductive cycles. OUTSIDE the
+    /// C01 fragment (`shape_ok` is false); only for checks that need no reference semantics (C04)
+    CycMixed,
 }
 
 pub fn available() -> bool {
@@ -708,7 +711,7 @@ fn rand_ty(rng: &mut Rng, ar: &[(String, usize)], depth: usize, params: &[String
     Ty::Adt(n, (0..k).map(|_| rand_ty(rng, ar, depth.saturating_sub(1), params, allow_params)).collect())
 }
 
-fn gen_cyc(rng: &mut Rng, auto_bias: bool) -> GenOut {
+fn gen_cyc(rng: &mut Rng, auto_bias: bool, mixed: bool) -> GenOut {
     let nty = if auto_bias { rng.range(2, 4) } else if rng.coin(65) { 1 } else { rng.range(2, 3) };
     let tys: Vec<String> = ["S", "T", "U", "R"].iter().take(nty).map(|s| s.to_string()).collect();
     let ntr = rng.range(3, 5);
@@ -723,6 +726,7 @@ fn gen_cyc(rng: &mut Rng, auto_bias: bool) -> GenOut {
             7 | 8 => if i == 0 { TraitKind::Auto } else { TraitKind::Co },
             _ => if i < 2 { TraitKind::Ind } else { TraitKind::Co },
         };
+        let kind = if mixed { if (i + mode as usize) % 2 == 0 { TraitKind::Co } else { TraitKind::Ind } } else { kind };
         traits.push(TraitDecl { name: n.to_string(), params: vec![], kind, wcs: vec![] });
     }
     let mut prog = Prog::default();
@@ -755,7 +759,7 @@ fn gen_cyc(rng: &mut Rng, auto_bias: bool) -> GenOut {
             let mut wcs = vec![];
             let nwc = *rng.pick(&[0usize, 0, 1, 1, 1, 2, 2, 2, 3, 3]);
             for _ in 0..nwc {
-                let cands: Vec<&(String, TraitKind)> = if *tk == TraitKind::Ind { tinfo.iter().collect() } else { tinfo.iter().filter(|x| x.1 != TraitKind::Ind).collect() };
+                let cands: Vec<&(String, TraitKind)> = if *tk == TraitKind::Ind || mixed { tinfo.iter().collect() } else { tinfo.iter().filter(|x| x.1 != TraitKind::Ind).collect() };
                 if cands.is_empty() {
                     continue;
                 }
@@ -842,8 +846,8 @@ fn gen_cyc(rng: &mut Rng, auto_bias: bool) -> GenOut {
 }
 
 pub fn gen(rng: &mut Rng, profile: Profile) -> GenOut {
-    if profile == Profile::Cyc || profile == Profile::CycAuto {
-        return gen_cyc(rng, profile == Profile::CycAuto);
+    if profile == Profile::Cyc || profile == Profile::CycAuto || profile == Profile::CycMixed {
+        return gen_cyc(rng, profile == Profile::CycAuto, profile == Profile::CycMixed);
     }
     let wild = profile == Profile::Wild;
     let coind = profile == Profile::Coinductive;
@@ -1272,6 +1276,37 @@ pub fn has_overlapping_impls(p: &Prog) -> bool {
             let (sb, ab) = ren(b, "'b");
             let mut m = BTreeMap::new();
             if unify_ty(&sa, &sb, &mut m) && aa.iter().zip(ab.iter()).all(|(x, y)| unify_ty(x, y, &mut m)) {
+                return true;
+            }
+        }
+    }
+    false
+}
+
+/// does some cycle of the trait dependency graph (trait -> traits named in the where-clauses of its impls) contain
+/// both an inductive and a coinductive/auto trait? (per-trait approximation of "mixed cycle")
+pub fn mixed_cycle(p: &Prog) -> bool {
+    let names: Vec<String> = p.traits().map(|t| t.name.clone()).collect();
+    let edges = |n: &str| -> Vec<String> { p.impls().filter(|i| i.positive && i.tr == n).flat_map(|i| i.wcs.iter().map(|w| w.tr.clone())).collect() };
+    let reach = |start: &str| -> Vec<String> {
+        let mut seen: Vec<String> = vec![];
+        let mut work = edges(start);
+        while let Some(n) = work.pop() {
+            if !seen.contains(&n) {
+                seen.push(n.clone());
+                work.extend(edges(&n));
+            }
+        }
+        seen
+    };
+    let kind = |n: &str| p.tr(n).map(|t| t.kind != TraitKind::Ind).unwrap_or(false);
+    for a in &names {
+        let ra = reach(a);
+        if !ra.contains(a) {
+            continue;
+        }
+        for b in &ra {
+            if kind(a) != kind(b) && reach(b).contains(a) {
                 return true;
             }
         }
